@@ -284,7 +284,17 @@ class LoopMixin:
             if arr is None:
                 continue
             refs = by_key.get(key)
-            is_stable = lambda r: z3.is_expr(r) and any(r.eq(sr) for sr in stable_refs)
+            def is_stable(r, depth=0):
+                if not z3.is_expr(r):
+                    return False
+                if any(r.eq(sr) for sr in stable_refs):
+                    return True
+                # a field, not written by the loop, of a loop-invariant reference (e.g. self.conn)
+                if depth < 3 and z3.is_select(r) and is_stable(r.arg(1), depth + 1):
+                    for k2, a2 in list(st.heap.items()):
+                        if k2 not in mod_keys and a2.eq(r.arg(0)):
+                            return True
+                return False
             is_fresh = lambda r: (isinstance(r, str) and r == "fresh") or (z3.is_expr(r) and self.allocated_after(r, st))
             if refs and key not in lc.get("modifies", []) and all(r is not None and (is_stable(r) or is_fresh(r)) for r in refs) \
                     and any(is_fresh(r) for r in refs):
